@@ -7,7 +7,7 @@ alphabet; each x pad x boundary x first_extrema x filter settings.  Oracle: refe
 import numpy as np
 
 from bcmc.explore import ProductSpace, OK, VIOL, SKIP
-from bcmc.ref.extrema import ref_extrema
+from bcmc.ref.extrema import ref_extrema, ref_filt_len
 from bcmc import spaces as S
 
 LEVEL = 'model_checking'
@@ -51,6 +51,10 @@ def check_signal(sig, fs, f_range, cmbs, tag):
     cache = {}
     for fk, pad, b, fe in cmbs:
         key = (repr(fk), pad, b, fe)
+        if not pad and len(sig) <= ref_filt_len(fs, f_range, fk):
+            nskip += 1            # without padding the signal must be longer than the filter (neurodsp rejects it)
+            outs.append(None)
+            continue
         r = ref_extrema(sig, fs, f_range, boundary=b, first_extrema=fe, filter_kwargs=fk, pad=pad)
         if not r['ok']:
             nskip += 1
